@@ -436,6 +436,8 @@ func checkC12(w *World, r *Report) {
 	}
 	// ---------- C12.verbatim ----------
 	checkVerbatim(w, r, "C12.verbatim", flatten(ro.INIT))
+	r.Rule("C12.exportverbatim", "P4", "closed world: on the export trees no record obtained from a keeper is modified in place before it is exported, except the reviewed blanking of the burn state's account", 2)
+	checkExportVerbatim(w, r, "C12.exportverbatim", flatten(ro.EXPORT))
 	// ---------- C12.getall ----------
 	checkGetAll(w, r, "C12.getall", append(append(flatten(ro.EXPORT), flatten(ro.BLK)...), flatten(ro.QRY)...))
 	// ---------- C12.accepts ----------
